@@ -216,4 +216,45 @@ let () =
            (match res2 with None -> "-" | Some x -> cres_name x) (state_name c2.c_ws)
            (rle (bytes_of_nlist c2.c_wire)) tail verdict
        | _ -> Printf.printf "noparams | oracle=fail@%s\n" (match itoks with t :: _ -> t | [] -> "empty"))
+    | "sess" :: k :: toks ->
+      (match param_of "rp=" itoks, param_of "ct=" itoks, str_param "c5=" itoks, param_of "rp5=" itoks,
+             param_of "ct5=" itoks, param_of "b5=" itoks with
+       | Some rp, Some ct, Some c5, Some rp5, Some ct5, Some b5 ->
+         let k = int_of_string k in
+         (* earlier responses: their table texts are written into the responses literally (CtText) and the
+            reason-phrase function is keyed by status code *)
+         let rec parse_pre i toks acc = if i = k then (List.rev acc, toks) else
+             let (p, rest) = parse_response_case toks in parse_pre (i + 1) rest (p :: acc) in
+         let (pre0, toks') = parse_pre 0 toks [] in
+         let (r, _) = parse_response_case toks' in
+         let code5 = n_of_decimal c5 in
+         let pre_rp = List.mapi (fun i p -> (p.r_code, param_of (Printf.sprintf "pr%d=" i) itoks)) pre0 in
+         let pre = List.mapi (fun i p ->
+             match p.r_ctype, param_of (Printf.sprintf "pc%d=" i) itoks with
+             | CtVariant _, Some t -> { p with r_ctype = CtText t }
+             | _ -> p) pre0 in
+         let reason = (fun c -> if c = code5 then rp5 else if c = r.r_code then rp else
+                          match List.assoc_opt c pre_rp with Some (Some t) -> t | _ -> rp) in
+         let ct_text = (fun _ -> ct) in
+         let r500 = { r_normal = true; r_code = code5; r_ctype = CtText ct5; r_headers = [];
+                      r_body = BKnown (n_of_int (List.length b5), true, plain_reader b5) } in
+         let c0 = { c_ws = WsNone; c_writer = writer_all; c_wire = []; c_shutdowns = O } in
+         let (((res, st1), res2), c2) = conn_session reason ct_text c0 pre r r500 in
+         let tail = String.concat " " (List.filter (fun t -> String.contains t '=') itoks) in
+         let pre_ok = List.for_all prefix_resp_ok pre in
+         let verdict =
+           (match itoks with
+            | k1 :: s1 :: k2 :: _s2 :: o :: _ ->
+              (try
+                 let sent = nlist_of_bytes (unrle o) in
+                 let ires2 = if k2 = "-" then None else Some (cres_of_name k2) in
+                 if not pre_ok then "oracle=fail@bad-prefix-in-case"
+                 else if oracle_c08_session reason ct_text pre r r500 (cres_of_name k1) (state_of_name s1) ires2 sent
+                 then "oracle=ok" else "oracle=fail@" ^ k1 ^ "/" ^ s1
+               with _ -> "oracle=fail@unparsable")
+            | _ -> "oracle=fail@unparsable") in
+         Printf.printf "%s %s %s %s %s %s | %s\n" (cres_name res) (state_name st1)
+           (match res2 with None -> "-" | Some x -> cres_name x) (state_name c2.c_ws)
+           (rle (bytes_of_nlist c2.c_wire)) tail verdict
+       | _ -> Printf.printf "noparams | oracle=fail@%s\n" (match itoks with t :: _ -> t | [] -> "empty"))
     | _ -> Printf.printf "? | oracle=fail@badcase\n") cases impl
